@@ -2,23 +2,24 @@
 # usage: run_seeds.sh [tier] [id ...]   - runs every seeded change (or the given ones) against its property's check in a SCRATCH
 # worktree of /repo (so /repo itself stays untouched), records the outcome in /verif/seeded/detection.json, removes the worktree.
 TIER=${1:-quick}; shift
+ROOT=$(dirname "$(dirname "$(readlink -f "$0")")")        # the /verif this script belongs to (a vp-run snapshot uses its own harness files)
 W=/tmp/seedrun.$$
 git -C /repo worktree add -q --detach $W HEAD || exit 3
 trap 'git -C /repo worktree remove --force $W' EXIT
-IDS="$@"; [ -z "$IDS" ] && IDS=$(ls /verif/seeded | grep -E '^C[0-9]+_[a-z]$')
+IDS="$@"; [ -z "$IDS" ] && IDS=$(ls $ROOT/seeded | grep -E '^C[0-9]+_[a-z]$')
 for s in $IDS; do
   prop=${s%_*}
   git -C $W checkout -q -- . 
-  if ! git -C $W apply /verif/seeded/$s/patch.diff 2>/dev/null; then echo "$s PATCH-DOES-NOT-APPLY"; continue; fi
+  if ! git -C $W apply $ROOT/seeded/$s/patch.diff 2>/dev/null; then echo "$s PATCH-DOES-NOT-APPLY"; continue; fi
   t0=$(date +%s)
-  (cd /verif && VERIF_STOP_AT_FIRST=${VERIF_STOP_AT_FIRST-1} VERIF_REPO=$W timeout 1500 ./check $prop $TIER) > /tmp/seedrun.$$.log 2>&1; rc=$?
+  (cd $ROOT && VERIF_STOP_AT_FIRST=${VERIF_STOP_AT_FIRST-1} VERIF_REPO=$W timeout 1500 ./check $prop $TIER) > /tmp/seedrun.$$.log 2>&1; rc=$?
   t1=$(date +%s)
   viol=$(grep -c '^VIOLATION' /tmp/seedrun.$$.log)
   first=$(grep -m1 'violation in' /tmp/seedrun.$$.log | cut -c1-300)
   echo "$s rc=$rc violations=$viol secs=$((t1-t0)) :: $first"
-  /verif/.venv/bin/python - "$s" "$rc" "$viol" "$((t1-t0))" "$TIER" "$first" <<'PY'
+  DET_DEFAULT=$ROOT/seeded/detection.json /verif/.venv/bin/python - "$s" "$rc" "$viol" "$((t1-t0))" "$TIER" "$first" <<'PY'
 import json, sys, os
-p=os.environ.get('DETECTION','/verif/seeded/detection.json')
+p=os.environ.get('DETECTION') or os.environ['DET_DEFAULT']
 d=json.load(open(p)) if os.path.exists(p) else {}
 s, rc, viol, secs, tier, first = sys.argv[1:7]
 d[s]={"tier": tier, "exit_code": int(rc), "violation_lines": int(viol), "seconds": int(secs), "detected": int(rc)==1 and int(viol)>0, "first_violation": first.strip()}
